@@ -63,7 +63,10 @@ def check_C01(run, replay):
                 "full-support profiles; half dyadic); TLC evaluates spec/Game.tla (expected utility, brute-force best "
                 "response over all pure strategies) exactly; replay compares get_info() at 1e-11; non-trivial = the "
                 "game has at least one multi-action infoset; distinct by canonical JSON of the case; plus the valid trees of U-tiny "
-                "(MC_Build's universe, hash slice) x every profile on the grid {(1,0),(0,1),(1,1)} per infoset")
+                "(MC_Build's universe, hash slice) x every profile on the grid {(1,0),(0,1),(1,1)} per infoset; "
+                "model: Eval.tla (operational evaluator: collect, pop in ANY admissible order, search) checked by TLC on the "
+                "same cases and on U-tiny for NoBadRead / NoUnderflow / ResolvedLeavesFirst / AllReachedResolved / "
+                "MatchesDeclarative (and refuted without the action in the recall rule, MC_EvalOpTiny_NoAction.cfg)")
     run.assumptions = ["f64 evaluation of a depth<=5 game is within 1e-11 of the exact rational value",
                        "TLC evaluates the TLA+ operators of Rat.tla / Game.tla correctly"]
     if replay:
@@ -83,11 +86,31 @@ def check_C01(run, replay):
     absorb(run, rows, {c["id"]: c for c in cases}, mismatch_sig("eval"))
     if replay:
         return
+    # the operational model of the evaluator (Eval.tla): every resolution order, on a prefix of the cases
+    op_path = run.path("op.ndjson")
+    write_ndjson(op_path, cases[:120 if run.tier == "quick" else 1500])
+    res = tlc("MC_EvalOp", env={"CASES": op_path}, timeout=6000, coverage=True)
+    run.add_tlc(res)
+    run.notes["operational_model"] = {"cases": len(cases[:120 if run.tier == "quick" else 1500]), "states": res.distinct,
+                                      "pop_steps": res.coverage.get("Pop", 0)}
+    # impl -> spec: the order in which the real evaluator resolves infosets (event hook) is a behaviour of Eval.tla
+    trace = run.path("evaltrace.ndjson")
+    tr_cases = run.path("evaltrace.cases.ndjson")
+    write_ndjson(tr_cases, cases[:300 if run.tier == "quick" else 4000])
+    info = json.loads(harness(["record", "eval", "--cases", tr_cases, "--out", trace]).strip().splitlines()[-1])
+    for f in info["failed"][:5]:
+        run.violation("eval:failed", {"case": f})
+    validate_trace(run, "Trace_Eval", trace, "eval:order", {"seed": run.seed}, timeout=6000)
+    run.notes["operational_model"]["recorded_evaluations"] = info["events"]
+    run.notes["operational_model"]["recorded_pops"] = info["pops"]
     # exhaustive small universe: valid trees of U-tiny x grid profiles
     of = 32 if run.tier == "quick" else 2
     cases2, rows2 = enumerate_pipeline(run, "MC_EvalTiny", "eval", env={"SLICE": run.seed % of, "OF": of}, timeout=6000,
                                        name="tiny")
     absorb(run, rows2, cases2, mismatch_sig("eval"))
+    res = tlc("MC_EvalOpTiny", env={"SLICE": run.seed % (2 * of), "OF": 2 * of}, timeout=6000)
+    run.add_tlc(res)
+    run.notes["operational_model"]["tiny_states"] = res.distinct
 
 
 def enumerate_pipeline(run, module, what, env=None, timeout=900, tag="OUT", extra_replay=None, name="enum",
@@ -585,7 +608,9 @@ LEVELS["C06"] = "model_checking"
 def check_C06(run, replay):
     run.rule = ("model: MC_Par.tla - TLC builds every ordered tree with 2..4 children per internal node up to 11 nodes x "
                 "targets {3,6,9} x 3 consecutive passes with the workspace persisting as in the code and checks ExactlyOnce, "
-                "NoStaleTask, CacheIsCurrent, TasksDisjoint; traces: solve(Full, T=4 (1,2,3,4,10 thorough), k in "
+                "NoStaleTask, CacheIsCurrent, TasksDisjoint; ParWorkers.tla - every interleaving of 2-3 workers at the grain "
+                "of the atomic adds and mutex sections on four instances with infosets spanning tasks: ParEqualsSeq, "
+                "NoLostStrategyUpdate, NoDeadlock, termination under fairness; traces: solve(Full, T=4 (1,2,3,4,10 thorough), k in "
                 "{2,3,4,8,16(,5,6,12)}, presets) on shape games, seeded games and U-zoo (kuhn, infoset shared by 16 nodes, "
                 "chain of depth 8) with generic payoffs: every pass (frontier, tasks, nodes entered, cache hits) validated "
                 "against Trace_Par.tla and the result compared with one thread at 1e-9; non-trivial = the frontier cut "
@@ -594,6 +619,10 @@ def check_C06(run, replay):
                        "exhaustive argument over shapes lives in the model", "generic payoffs avoid exact ties (DESIGN 3.4)"]
     res = tlc("MC_Par", cfg="MC_Par_Full_TRUE", timeout=3000)
     run.add_tlc(res)
+    # the shared-memory grain: every interleaving of the workers' atomic adds / mutex sections (ParWorkers.tla)
+    res = tlc("ParWorkers", cfg="MC_ParWorkers", timeout=3000, workers=4)
+    run.add_tlc(res)
+    run.notes["interleaving_model_states"] = res.distinct
     par_check(run, ["Full"], 24 if run.tier == "quick" else 200)
 
 
